@@ -187,30 +187,48 @@ def flushed : List (List Char) → List Char
   | s :: r => s ++ flushed r
 /-- `flush` -/
 def Printer.flush (p : Printer) : Printer := { p with output := p.output ++ flushed p.line_buffer, line_buffer := [] }
-/-- `is_line_buffer_empty`: no string of the buffer is non-empty, not whitespace and not a multiple of `tab` -/
+/-- `s.strip(chars)` -/
+def pyStrip (chars : List Char) (s : List Char) : List Char :=
+  ((s.dropWhile chars.contains).reverse.dropWhile chars.contains).reverse
+/-- the characters of `' \t\f\r'`: what `is_line_buffer_empty` counts as blank (the lexer's ignored characters without the newline,
+which a line never contains) -/
+def blankChars : List Char := [' ', '\t', '\x0c', '\r']
+/-- `is_line_buffer_empty` (as repaired by 5aefd01 "print a label that consists of non-lexer whitespace"): no string of the buffer
+has `s.strip(' \t\f\r') != ''` without being a multiple of `tab` -/
 def Printer.is_line_buffer_empty (p : Printer) : Bool :=
+  p.line_buffer.all fun s =>
+    !(pyStrip blankChars s != [] && (p.tab.length == 0 || s != pyRepeat (s.length / p.tab.length) p.tab))
+/-- `is_line_buffer_empty` BEFORE 5aefd01: `len(s) != 0 and not s.isspace()` — kept to record the defect (`AstText.old_printer_dropped_blank_label`) -/
+def Printer.is_line_buffer_empty_old (p : Printer) : Bool :=
   p.line_buffer.all fun s =>
     !(s.length != 0 && !pyIsSpaceL s && (p.tab.length == 0 || s != pyRepeat (s.length / p.tab.length) p.tab))
 /-- the end of the loop body of `write`: `if self.is_line_buffer_empty(): self.line_buffer = [self.current_indentation]`;
-`self.line_buffer.append(line)` -/
-def Printer.writeLine (p : Printer) (line : List Char) : Printer :=
-  let p := if p.is_line_buffer_empty then { p with line_buffer := [p.current_indentation] } else p
+`self.line_buffer.append(line)` (`empty`: which `is_line_buffer_empty`) -/
+def Printer.writeLineWith (empty : Printer → Bool) (p : Printer) (line : List Char) : Printer :=
+  let p := if empty p then { p with line_buffer := [p.current_indentation] } else p
   { p with line_buffer := p.line_buffer ++ [line] }
 /-- `if i != 0: self.flush(); self.output.write('\n')` -/
 def Printer.newline (p : Printer) : Printer := let p := p.flush; { p with output := p.output ++ ['\n'] }
 /-- `write(msg)` -/
-def Printer.write (p : Printer) (msg : List Char) : Printer :=
+def Printer.writeWith (empty : Printer → Bool) (p : Printer) (msg : List Char) : Printer :=
   match pySplitNl msg with
   | [] => p       -- not reached
-  | l :: ls => ls.foldl (fun p l => p.newline.writeLine l) (p.writeLine l)
+  | l :: ls => ls.foldl (fun p l => p.newline.writeLineWith empty l) (p.writeLineWith empty l)
 /-- replay the calls (`none`: the assert of `deindent`) -/
-def Printer.run : Printer → List PCall → Option Printer
+def Printer.runWith (empty : Printer → Bool) : Printer → List PCall → Option Printer
   | p, [] => some p
-  | p, .write s :: cs => (p.write s.toList).run cs
-  | p, .indent :: cs => p.indent.run cs
-  | p, .deindent :: cs => p.deindent.bind fun p => p.run cs
+  | p, .write s :: cs => (p.writeWith empty s.toList).runWith empty cs
+  | p, .indent :: cs => p.indent.runWith empty cs
+  | p, .deindent :: cs => p.deindent.bind fun p => p.runWith empty cs
 /-- the text of `Encoder.encode_string`: the calls, then `encoder.flush()`, then `stream.getvalue()` -/
-def printerText (tab : String) (cs : List PCall) : Option (List Char) :=
-  ((Printer.new tab.toList).run cs).map fun p => p.flush.output
+def printerTextWith (empty : Printer → Bool) (tab : String) (cs : List PCall) : Option (List Char) :=
+  ((Printer.new tab.toList).runWith empty cs).map fun p => p.flush.output
+/-- the class as it is -/
+def Printer.writeLine : Printer → List Char → Printer := Printer.writeLineWith Printer.is_line_buffer_empty
+def Printer.write : Printer → List Char → Printer := Printer.writeWith Printer.is_line_buffer_empty
+def Printer.run : Printer → List PCall → Option Printer := Printer.runWith Printer.is_line_buffer_empty
+def printerText : String → List PCall → Option (List Char) := printerTextWith Printer.is_line_buffer_empty
+/-- the class before 5aefd01 -/
+def printerTextOld : String → List PCall → Option (List Char) := printerTextWith Printer.is_line_buffer_empty_old
 
 end MMAstSup
